@@ -32,9 +32,22 @@ var c05Prelude = []string{
 	"w = 0",
 	"mk = (n) -> (m) -> n + m",
 	"cl = mk(3)",
+	c05Wide(140),
 }
 
-var c05Names = []string{"a", "b", "c", "x", "w", "f", "g", "h", "k", "cl", "mk", "toa", "aton", "write", "fromto", "elems", "indices", "read", "undefined", "i", "e"}
+// c05Wide is a function whose frame is wider than the initial stack of an
+// iterator context, with a loop whose iterator reads its last local.
+func c05Wide(n int) string {
+	var sb strings.Builder
+	sb.WriteString("wf = (p) -> {\n")
+	for i := 0; i < n; i++ {
+		fmt.Fprintf(&sb, "%s = p + %d\n", letters("y", i), i)
+	}
+	fmt.Fprintf(&sb, "s = 0\nfor q <- elems([%s, p]) s = s + q\ns\n}", letters("y", n-1))
+	return sb.String()
+}
+
+var c05Names = []string{"a", "b", "c", "x", "w", "f", "g", "h", "k", "cl", "mk", "wf", "toa", "aton", "write", "fromto", "elems", "indices", "read", "undefined", "i", "e"}
 
 // the documented runtime errors
 func documentedError(c ref.ErrClass) bool {
@@ -150,6 +163,10 @@ func genBlindSession(t *rapid.T) []string {
 	pr := &gen.Printer{C: gen.Plain{}}
 	for i := 0; i < n; i++ {
 		stmts = append(stmts, pr.Top(g.Block(rapid.IntRange(1, 4).Draw(t, "depth"))))
+	}
+	if rapid.IntRange(0, 5).Draw(t, "wide") == 0 {
+		// a loop, then the wide-frame function with its own loop, in one statement (recycled contexts)
+		stmts = append(stmts, fmt.Sprintf("{\nfor q <- g() q\nfor q, r <- g(), elems(x) q\nwf(%d)\n}", rapid.IntRange(0, 9).Draw(t, "arg")))
 	}
 	return stmts
 }
